@@ -101,6 +101,12 @@ mod recursion {
                 Ok(DepthGuard::new(Rc::clone(&self.remaining_depth)))
             }
         }
+
+        /// Verification hook: the remaining depth.
+        #[cfg(sqlparser_verif)]
+        pub fn verif_remaining(&self) -> usize {
+            self.remaining_depth.get()
+        }
     }
 
     /// Guard that increases the remaining depth by 1 on drop
@@ -3134,6 +3140,8 @@ impl<'a> Parser<'a> {
 
     /// Return nth non-whitespace token that has not yet been processed
     pub fn peek_nth_token(&self, mut n: usize) -> TokenWithLocation {
+        #[cfg(sqlparser_verif)]
+        verif_hooks::step();
         let mut index = self.index;
         loop {
             index += 1;
@@ -3176,6 +3184,8 @@ impl<'a> Parser<'a> {
     /// (or None if reached end-of-file) and mark it as processed. OK to call
     /// repeatedly after reaching EOF.
     pub fn next_token(&mut self) -> TokenWithLocation {
+        #[cfg(sqlparser_verif)]
+        verif_hooks::step();
         loop {
             self.index += 1;
             match self.tokens.get(self.index - 1) {
@@ -12187,6 +12197,59 @@ impl<'a> Parser<'a> {
             return true;
         }
         false
+    }
+}
+
+/// Verification hooks (only with `--cfg sqlparser_verif`): a deterministic
+/// work counter and read-only access to the mutable parser state.
+#[cfg(sqlparser_verif)]
+pub mod verif_hooks {
+    use std::cell::Cell;
+
+    thread_local! {
+        static STEPS: Cell<u64> = const { Cell::new(0) };
+        static STEP_LIMIT: Cell<u64> = const { Cell::new(u64::MAX) };
+    }
+
+    /// Count one cursor operation; panics with a recognisable payload once
+    /// the configured budget is exhausted (used as a work watchdog).
+    #[inline]
+    pub fn step() {
+        let n = STEPS.with(|c| {
+            let n = c.get() + 1;
+            c.set(n);
+            n
+        });
+        if n > STEP_LIMIT.with(|c| c.get()) {
+            STEP_LIMIT.with(|c| c.set(u64::MAX));
+            panic!("sqlparser_verif: step budget exhausted");
+        }
+    }
+
+    /// Cursor operations counted since the last reset.
+    pub fn steps() -> u64 {
+        STEPS.with(|c| c.get())
+    }
+
+    /// Reset the counter and set the budget (`u64::MAX` = unlimited).
+    pub fn reset(limit: u64) {
+        STEPS.with(|c| c.set(0));
+        STEP_LIMIT.with(|c| c.set(limit));
+    }
+}
+
+#[cfg(sqlparser_verif)]
+impl<'a> Parser<'a> {
+    /// Verification hook: `(index, state is Normal, options.trailing_commas,
+    /// options.unescape, remaining recursion depth)`.
+    pub fn verif_state(&self) -> (usize, bool, bool, bool, usize) {
+        (
+            self.index,
+            matches!(self.state, ParserState::Normal),
+            self.options.trailing_commas,
+            self.options.unescape,
+            self.recursion_counter.verif_remaining(),
+        )
     }
 }
 
